@@ -35,7 +35,9 @@ ASSUMPTIONS = [
     "2^-46*(|raw*slope|+|intercept|+1) of a rounding tie or clip edge either neighbour is "
     "accepted (never a wider set); when every intermediate is exactly representable in "
     "float64 the exact result is demanded",
-    "float32 targets: relative 1e-6", "finite voxel values only"]
+    "float32 targets: |result - exact| <= 1e-6*|exact| + the same absolute float64 slack "
+    "(cancellation may leave a residue of the order of 1e-17 where the exact value is 0)",
+    "finite voxel values only"]
 MANIFEST = {
     "level_text": "End-to-end reference monitoring of the real conversion (library entry "
     "point in-process, command line in a subprocess for sharded output): every voxel of "
@@ -347,7 +349,9 @@ def run_case(case):
                     known = KF_U64
             else:
                 fv = float(val)
-                ok = abs(float(gv) - fv) <= 1e-6 * max(abs(fv), 1e-30) + 1e-38
+                # relative 1e-6 of the value plus the same absolute float64 evaluation slack
+                # as for integer targets (cancellation can leave a tiny residue at 0)
+                ok = abs(float(gv) - fv) <= 1e-6 * abs(fv) + float(tol) + 1e-38
                 cand = {fv}
             if not ok:
                 x, rem = divmod(n, Y * Z * C)
